@@ -83,7 +83,7 @@ theorem BoundSet_satisfies (s : BoundSet) (v : Version) : s.rs_satisfies v = s.s
   unfold BoundSet.rs_satisfies BoundSet.satisfies BoundSet.within BoundSet.gate sameTuple
   simp only [id_run, id_pure, v_le, v_lt, Version.rs_is_prerelease, Version.isPre, Rust.is_empty, n_eq, Rust.unreachable]
   rcases l with (p | p) <;> rcases u with (q | q) <;> cases p <;> cases q <;>
-    simp <;> (repeat' split) <;> simp_all <;> grind
+    simp <;> (repeat' split) <;> simp_all <;> (intro a b; cases ‹_ ∨ _› <;> simp_all)
 
 theorem BoundSet_min_version (s : BoundSet) : s.rs_min_version = s.minVersion := by
   obtain ⟨u, l⟩ := s
